@@ -121,6 +121,30 @@ pub fn contexts(wlen: impl Fn(u32) -> u32, with_bom: bool) -> Vec<Space> {
     ]
 }
 
+/// Layer M: byte-order-mark sequences that are NOT at the start of the input (directly behind markup
+/// or text): they are ordinary character data there and must be reported and counted as such.
+pub fn mid_bom(max_len: u32) -> Space {
+    context(
+        "M.bom_not_at_start",
+        &[
+            b"<a>\xEF\xBB\xBF",
+            b"<a/>\xEF\xBB\xBF",
+            b"</a>\xEF\xBB\xBF",
+            b"<!--c-->\xEF\xBB\xBF",
+            b"<?p?>\xEF\xBB\xBF",
+            b"x\xEF\xBB\xBF",
+            b"<a> \xEF\xBB\xBF",
+            b"<a>\xFF\xFE",
+            b"<a>\xFE\xFF",
+            b"\xEF\xBB\xBF<a>\xEF\xBB\xBF",
+        ],
+        b"<a/> x",
+        max_len,
+        &[b"", b"</a>"],
+        false,
+    )
+}
+
 /// Layer W: which bytes count as XML white space. Every pair of byte values (b1, b2), all 65 536
 /// of them, is placed where blanks are significant: after the DOCTYPE keyword, after a name in
 /// start / end tags, after a PI target / the `xml` of a declaration, and around text.
